@@ -121,6 +121,7 @@ def run(P, R, tier):
                     R.abstain('C08.i', g_, sub, f'`{norm(sub)}` touches another row than `{iv}`; whether that keeps rows independent is not decided')
     R.floor('C08.i', 'row-indexed accesses in the curve kernels', nrow, 2)
     # the default extent is the object's own total_bounds, computed from exactly its rows on every call (not a value remembered by / inherited from another object)
+    common.forward(P, R, 'C13', ['C13.a', 'C13.b', 'C13.g', 'C13.i'], 'C08.j', 'the distance is the curve position of the centre of the element\'s own box: the boxes are the tight float64 extents of exactly this array\'s elements', floor=10)
     common.forward(P, R, 'C13', ['C13.d'], 'C08.j', 'the default total_bounds of hilbert_distance is the extent of exactly this object\'s rows', floor=2)
     # ---------------------------------------------------------------- C08.b
     for f, seeds in ((dfb, {dfb.params[0]}), (d2c, {d2c.params[0]})):
